@@ -284,7 +284,7 @@ def _t(x):
     if isinstance(x, float):
         if x != x or x in (float("inf"), float("-inf")):
             raise Unsupported("non-finite float constant in symbolic arithmetic")
-        return z3.RealVal(repr(x))
+        return z3.RealVal(_float_as_rational(x))
     if z3.is_expr(x):
         return x
     try:
@@ -294,10 +294,32 @@ def _t(x):
         if isinstance(x, numpy.integer):
             return z3.IntVal(int(x))
         if isinstance(x, numpy.floating):
-            return z3.RealVal(repr(float(x)))
+            return _t(float(x))
     except ImportError:
         pass
     raise Unsupported("cannot convert %r to a z3 term" % (type(x),))
+
+
+_FRAC_CACHE = {}
+
+
+def _float_as_rational(x):
+    """floats are read as reals (DESIGN 3.2): a concrete float is read as the
+    simplest rational that rounds to it (1.0/6 -> 1/6, 0.1 -> 1/10), which undoes
+    the rounding of constants computed natively before they meet symbolic values"""
+    r = _FRAC_CACHE.get(x)
+    if r is None:
+        from fractions import Fraction
+        fx = Fraction(x)
+        r = fx
+        for bound in (10, 1000, 10 ** 6, 10 ** 9, 10 ** 12):
+            c = fx.limit_denominator(bound)
+            if float(c) == x:
+                r = c
+                break
+        r = "%d/%d" % (r.numerator, r.denominator)
+        _FRAC_CACHE[x] = r
+    return r
 
 
 def wrap(t):
